@@ -6,7 +6,8 @@ Open Scope N_scope.
 
 Arguments smem : simpl never.
 Arguments m_mem : simpl never.
-Arguments all_present : simpl never.
+Arguments remove_seq : simpl never.
+Arguments att_find : simpl never.
 
 Arguments kw_read3 : simpl never.
 
@@ -53,6 +54,13 @@ Qed.
 
 (* a starting document with an Info dictionary and catalog XMP: the store starts with the
    union of the Info keywords and the XMP keywords *)
+Lemma rel_init_att : forall kw x a, let d := init_doc_att 17 true kw x a in
+  Forall (fun k => wfk k = true) (kw_read d) -> Rel d (init_store d).
+Proof.
+  intros kw x a d W. constructor; simpl; auto; try exact I; try constructor; auto.
+  apply kw_read3_sorted.
+Qed.
+
 Lemma rel_init : forall kw x, let d := init_doc 17 true kw x in
   Forall (fun k => wfk k = true) (kw_read d) -> Rel d (init_store d).
 Proof.
@@ -169,14 +177,7 @@ Proof.
 Qed.
 
 Definition fresh_op (s : store) (o : op) : Prop :=
-  match o with AAdd id _ => m_mem id (s_att s) = false | _ => True end.
-
-Lemma all_present_false : forall ids (m : atts),
-  fst (fold_left (fun (st : bool * atts) id => (fst st && m_mem id (snd st), m_del id (snd st))) ids (false, m)) = false.
-Proof. induction ids as [|x r IH]; simpl; intros m; [reflexivity|apply IH]. Qed.
-
-Lemma all_present_nil : forall i ids', all_present (i :: ids') [] = false.
-Proof. intros i ids'. unfold all_present. cbn [fold_left fst snd]. unfold m_mem at 1. simpl. apply all_present_false. Qed.
+  match o with AAdd id _ _ => m_mem id (s_att s) = false | _ => True end.
 
 Arguments xmp_scrub : simpl never.
 
@@ -198,7 +199,7 @@ Proof.
   rel_fields R.
   destruct s as [ver kw pr pl pm vp att]. simpl in *. destruct Rver as [Vd Vs]. subst ver.
   pose proof Rkw as Rkw3. unfold kw_read in Rkw3. rewrite Vd in Rkw3.
-  destruct o as [ks|ks|kvs|ks|v| |v| |new| |id data|ids]; simpl in W.
+  destruct o as [ks|ks|kvs|ks|v| |v| |new| |id desc data|ids]; simpl in W.
   - (* KAdd *)
     rewrite (wfk_not_blank _ W). simpl.
     rewrite Rkw. simpl. rewrite (fold_ins_trim_wf _ _ W).
@@ -270,11 +271,7 @@ Proof.
   - (* ARemove *)
     destruct ids as [|i ids'].
     + rewrite Ratt. destruct att as [|a att']; simpl; fin.
-    + cbv beta iota. rewrite Ratt.
-      destruct att as [|a att'].
-      * rewrite all_present_nil, andb_false_r. destruct (negb _); fin.
-      * remember (i :: ids') as ids eqn:Eids. remember (a :: att') as att eqn:Eatt.
-        destruct (forallb (fun k => negb (blank_b k)) ids) eqn:Hb; simpl; [|fin].
-        destruct att as [|a0 att0]; [discriminate|].
-        destruct (all_present ids (a0 :: att0)) eqn:Hp; simpl; fin.
+    + cbv beta iota. rewrite Ratt. remember (i :: ids') as ids eqn:Eids.
+      destruct (forallb (fun k => negb (blank_b k)) ids) eqn:Hb; simpl; [|fin].
+      destruct (remove_seq ids att) as [m|] eqn:Hr; simpl; fin.
 Qed.
